@@ -32,7 +32,11 @@ package regprocessor
 // Oracle (exactly the property): every request and every reload completes; the phantoms of one
 // response all lie in one of the pairwise-disjoint sets S0,S1,... and that set is not older than the
 // one installed when the request started; a reload of an unreadable / invalid file leaves the set
-// unchanged; a reload of a valid file succeeds and is in effect afterwards.
+// unchanged; a reload of a valid file succeeds and is in effect afterwards. Requests whose selection
+// fails (unknown generation, IPv6 from a generation without IPv6 subnets) must return their error -
+// that is their way of completing - and only when a set in force during the request refuses them;
+// every schedule is followed by a request, one more valid reload and another request, so whatever a
+// request or reload left behind (a lock not released on an error path) shows as a stall there.
 
 import (
 	"bytes"
@@ -68,7 +72,10 @@ import (
 )
 
 const (
-	c13Generation     = 1
+	c13Generation     = 1  // both families in every set
+	c13GenV4Only      = 2  // IPv4 subnets only in every set
+	c13GenAlt         = 3  // IPv4 only in even-numbered sets, both families in odd-numbered sets
+	c13GenUnknown     = 99 // in no file
 	c13NSets          = 8
 	c13SettleTimeout  = 45 * time.Second  // harness wait; expiry = harness problem, never a verdict
 	c13ParkTimeout    = 180 * time.Second // a parked actor nobody resumes = harness problem
@@ -112,16 +119,33 @@ func c13NewEnv(t testing.TB) *c13Env {
 		var sb strings.Builder
 		fmt.Fprintf(&sb, "[Networks]\n    [Networks.%d]\n        Generation = %d\n", c13Generation, c13Generation)
 		var nets []*net.IPNet
+		addNet := func(s string) {
+			_, n, err := net.ParseCIDR(s)
+			if err != nil {
+				t.Fatalf("harness problem: %v", err)
+			}
+			nets = append(nets, n)
+		}
 		for j, g := range c13SetCIDRs(i) {
 			fmt.Fprintf(&sb, "        [[Networks.%d.WeightedSubnets]]\n            Weight = %d\n            RandomizeDstPort = %v\n            Subnets = [%q, %q]\n",
 				c13Generation, 1+j, j == 0, g[0], g[1])
-			for _, s := range g {
-				_, n, err := net.ParseCIDR(s)
-				if err != nil {
-					t.Fatalf("harness problem: %v", err)
-				}
-				nets = append(nets, n)
-			}
+			addNet(g[0])
+			addNet(g[1])
+		}
+		// generation 2: IPv4 subnets only, in every set
+		g2 := fmt.Sprintf("10.%d.0.0/16", 60+i)
+		fmt.Fprintf(&sb, "    [Networks.%d]\n        Generation = %d\n        [[Networks.%d.WeightedSubnets]]\n            Weight = 1\n            RandomizeDstPort = true\n            Subnets = [%q]\n",
+			c13GenV4Only, c13GenV4Only, c13GenV4Only, g2)
+		addNet(g2)
+		// generation 3: IPv4 only in the even-numbered sets, both families in the odd-numbered ones
+		g3 := []string{fmt.Sprintf("10.%d.0.0/16", 100+i)}
+		if i%2 == 1 {
+			g3 = append(g3, fmt.Sprintf("2001:db8:%x::/64", 0x300+i))
+		}
+		fmt.Fprintf(&sb, "    [Networks.%d]\n        Generation = %d\n        [[Networks.%d.WeightedSubnets]]\n            Weight = 1\n            RandomizeDstPort = true\n            Subnets = [%s]\n",
+			c13GenAlt, c13GenAlt, c13GenAlt, `"`+strings.Join(g3, `", "`)+`"`)
+		for _, x := range g3 {
+			addNet(x)
 		}
 		p := filepath.Join(dir, fmt.Sprintf("set%d.toml", i))
 		if err := os.WriteFile(p, []byte(sb.String()), 0o644); err != nil {
@@ -141,10 +165,13 @@ func c13NewEnv(t testing.TB) *c13Env {
 		if err != nil {
 			t.Fatalf("harness problem: set file %d does not load: %v", i, err)
 		}
-		for _, v6 := range []bool{false, true} {
-			ip, err := sel.Select(bytes.Repeat([]byte{byte(i + 1)}, 32), c13Generation, uint(core.CurrentClientLibraryVersion()), v6)
-			if err != nil || e.setOf(*ip.IP()) != i {
-				t.Fatalf("harness problem: set %d v6=%v selects %v err=%v", i, v6, ip, err)
+		for _, gen := range []uint{c13Generation, c13GenV4Only, c13GenAlt, c13GenUnknown} {
+			for _, v6 := range []bool{false, true} {
+				ip, err := sel.Select(bytes.Repeat([]byte{byte(i + 1)}, 32), gen, uint(core.CurrentClientLibraryVersion()), v6)
+				wantErr := c13SelectFails(gen, v6, i)
+				if (err != nil) != wantErr || (err == nil && e.setOf(*ip.IP()) != i) {
+					t.Fatalf("harness problem: set %d generation %d v6=%v selects %v err=%v (failure expected: %v)", i, gen, v6, ip, err, wantErr)
+				}
 			}
 		}
 	}
@@ -191,16 +218,66 @@ func c13Secret(tag string, i, j int) []byte {
 	return s[:]
 }
 
+// Request kinds. The first three always succeed; the others contain a selection that fails (the client
+// gets the registrar's ordinary error): "badgen" names a generation the registrar does not know (its
+// only Select, the IPv4 one, fails), "v6x" asks for IPv6 only from a generation that has only IPv4
+// subnets (one failing Select), "dualx" is dual-stack on that generation (IPv4 Select succeeds, IPv6
+// Select fails), "dualalt" is dual-stack on a generation that lacks IPv6 in the even-numbered sets
+// only (so it is refused under the old set and answered under the new one, or the other way round).
+type c13Kind struct {
+	gen    uint32
+	v4, v6 bool
+}
+
+var c13Kinds = map[string]c13Kind{
+	"dual":    {c13Generation, true, true},
+	"v4":      {c13Generation, true, false},
+	"v6":      {c13Generation, false, true},
+	"badgen":  {c13GenUnknown, true, true},
+	"v6x":     {c13GenV4Only, false, true},
+	"dualx":   {c13GenV4Only, true, true},
+	"dualalt": {c13GenAlt, true, true},
+}
+
+var c13ReqKinds = []string{"dual", "v4", "v6"}
+var c13AllReqKinds = []string{"dual", "dualx", "dualalt", "v4", "v6", "badgen", "v6x"}
+
+// c13SelectFails is the harness' knowledge of its own subnet files: does Select(gen, v6) fail in set i?
+func c13SelectFails(gen uint, v6 bool, set int) bool {
+	switch gen {
+	case c13Generation:
+		return false
+	case c13GenV4Only:
+		return v6
+	case c13GenAlt:
+		return v6 && set%2 == 0
+	}
+	return true
+}
+
+// c13Refused reports whether a request of this kind is refused when it is served from set i.
+func c13Refused(kind string, set int) bool {
+	k := c13Kinds[kind]
+	return (k.v4 && c13SelectFails(uint(k.gen), false, set)) || (k.v6 && c13SelectFails(uint(k.gen), true, set))
+}
+
+// c13TwoSelects: kinds that can be caught between two selections.
+func c13TwoSelects(kind string) bool {
+	k := c13Kinds[kind]
+	return k.v4 && k.v6 && k.gen != c13GenUnknown
+}
+
 func c13Request(secret []byte, kind string) *pb.C2SWrapper {
 	tt := pb.TransportType_Min
+	k := c13Kinds[kind]
 	return &pb.C2SWrapper{
 		SharedSecret: secret,
 		RegistrationPayload: &pb.ClientToStation{
 			Transport:           &tt,
-			DecoyListGeneration: proto.Uint32(c13Generation),
+			DecoyListGeneration: proto.Uint32(k.gen),
 			CovertAddress:       proto.String("192.0.2.77:443"),
-			V4Support:           proto.Bool(kind != "v6"),
-			V6Support:           proto.Bool(kind != "v4"),
+			V4Support:           proto.Bool(k.v4),
+			V6Support:           proto.Bool(k.v6),
 			ClientLibVersion:    proto.Uint32(core.CurrentClientLibraryVersion()),
 		},
 	}
@@ -214,41 +291,49 @@ func c13Seed(secret []byte) string {
 	return string(k.ConjureSeed)
 }
 
-// c13Judge evaluates one response: which set its phantoms lie in. key != "" is a violation.
-func (e *c13Env) c13Judge(kind string, resp *pb.RegistrationResponse, err error) (set int, key, msg string) {
+// c13Judge evaluates the outcome of one request. window lists the sets that were installed or being
+// installed while the request ran. An error is the correct outcome iff the request is refused under
+// one of those sets (refused=true); otherwise key != "" is a violation. For an answer, set is the
+// set its phantoms lie in.
+func (e *c13Env) c13Judge(kind string, resp *pb.RegistrationResponse, err error, window []int) (set int, refused bool, key, msg string) {
 	if err != nil {
-		return -1, "request-error", fmt.Sprintf("request failed: %v", err)
+		for _, w := range window {
+			if c13Refused(kind, w) {
+				return -1, true, "", ""
+			}
+		}
+		return -1, false, "request-error", fmt.Sprintf("request failed although no subnet set in force during it (%v) refuses it: %v", window, err)
 	}
 	if resp == nil {
-		return -1, "request-error", "request returned neither response nor error"
+		return -1, false, "request-error", "request returned neither response nor error"
 	}
 	s4, s6 := -2, -2
 	var ip4, ip6 net.IP
-	if kind != "v6" {
+	if c13Kinds[kind].v4 {
 		if resp.Ipv4Addr == nil {
-			return -1, "response-missing-family", "v4-capable request got no IPv4 phantom"
+			return -1, false, "response-missing-family", "v4-capable request got no IPv4 phantom"
 		}
 		ip4 = make(net.IP, 4)
 		binary.BigEndian.PutUint32(ip4, resp.GetIpv4Addr())
 		s4 = e.setOf(ip4)
 	}
-	if kind != "v4" {
+	if c13Kinds[kind].v6 {
 		if len(resp.GetIpv6Addr()) != 16 {
-			return -1, "response-missing-family", "v6-capable request got no IPv6 phantom"
+			return -1, false, "response-missing-family", "v6-capable request got no IPv6 phantom"
 		}
 		ip6 = net.IP(resp.GetIpv6Addr())
 		s6 = e.setOf(ip6)
 	}
 	if s4 == -1 || s6 == -1 {
-		return -1, "foreign-phantom", fmt.Sprintf("phantom outside every configured subnet set: v4=%v v6=%v", ip4, ip6)
+		return -1, false, "foreign-phantom", fmt.Sprintf("phantom outside every configured subnet set: v4=%v v6=%v", ip4, ip6)
 	}
 	if s4 >= 0 && s6 >= 0 && s4 != s6 {
-		return -1, "mixed-sets", fmt.Sprintf("one response mixes subnet sets: v4 phantom %v is from set %d, v6 phantom %v is from set %d", ip4, s4, ip6, s6)
+		return -1, false, "mixed-sets", fmt.Sprintf("one response mixes subnet sets: v4 phantom %v is from set %d, v6 phantom %v is from set %d", ip4, s4, ip6, s6)
 	}
 	if s4 >= 0 {
-		return s4, "", ""
+		return s4, false, "", ""
 	}
-	return s6, "", ""
+	return s6, false, "", ""
 }
 
 // ---------------------------------------------------------------------------------------------------
@@ -402,6 +487,7 @@ type c13Actor struct {
 	pan     string
 	lo      int   // set installed when the request started
 	needHi  bool  // finished in the current settle round
+	window  []int // sets installed or being installed while the request ran
 	hi      int   // set installed at the stable point after it finished
 	between []int // targets of "new" reloads that started while this request was between its two selections
 	target  int   // reload: the set file it loads (kind "new")
@@ -429,6 +515,7 @@ type c13Sched struct {
 	inflight      *c13Actor
 	segLast       int
 	needRewrap    bool
+	startedMax    int // newest set a started reload is loading / has loaded
 	rewrapSkipped bool
 	classes       map[string]bool
 	nontrivial    bool
@@ -478,7 +565,7 @@ func c13NewSched(e *c13Env, c c13Case) (*c13Sched, error) {
 	s := &c13Sched{e: e, bySeed: map[string]*c13Actor{}, ev: make(chan c13Ev, 1024), abandon: make(chan struct{}),
 		segLast: -1, nextNew: 1, classes: map[string]bool{}}
 	for i, k := range c.Reqs {
-		if k != "v4" && k != "v6" && k != "dual" {
+		if _, ok := c13Kinds[k]; !ok {
 			return nil, fmt.Errorf("bad request kind %q", k)
 		}
 		sec := c13Secret("sched", i, 0)
@@ -497,7 +584,7 @@ func c13NewSched(e *c13Env, c c13Case) (*c13Sched, error) {
 		}
 		s.reloads = append(s.reloads, &c13Actor{name: "L" + strconv.Itoa(j), reload: true, idx: j, kind: k})
 	}
-	if nNew >= c13NSets {
+	if nNew >= c13NSets-1 { // one more set is needed for the reload that follows every schedule
 		return nil, fmt.Errorf("too many valid reloads (%d)", nNew)
 	}
 	s.classes[fmt.Sprintf("k=%d", len(c.Reqs))] = true
@@ -554,7 +641,7 @@ func (s *c13Sched) move(a *c13Actor) {
 			if r.state != c13Parked {
 				continue
 			}
-			if r.kind == "dual" && (r.point == "out4" || r.point == "in6") {
+			if c13TwoSelects(r.kind) && (r.point == "out4" || r.point == "in6") {
 				between = true
 				if a.kind == "new" {
 					r.between = append(r.between, s.nextNew)
@@ -577,6 +664,7 @@ func (s *c13Sched) move(a *c13Actor) {
 		case "new":
 			a.target = s.nextNew
 			s.nextNew++
+			s.startedMax = a.target
 			path = s.e.files[a.target]
 		case "garbage":
 			path = s.e.garbage
@@ -642,6 +730,12 @@ func (s *c13Sched) apply(e c13Ev) {
 			}
 		} else {
 			a.needHi = true
+			// reloads are only started at stable points, so this is every set that was installed
+			// or being installed while the request ran
+			a.window = nil
+			for w := a.lo; w <= s.startedMax || w <= s.cur; w++ {
+				a.window = append(a.window, w)
+			}
 		}
 	}
 }
@@ -986,9 +1080,16 @@ func c13Run(e *c13Env, c c13Case) (res c13Result) {
 			first("request-panic", fmt.Sprintf("%s[%s] panicked: %s", a.name, a.kind, a.pan))
 			continue
 		}
-		set, k, m := e.c13Judge(a.kind, a.resp, a.err)
+		set, refused, k, m := e.c13Judge(a.kind, a.resp, a.err, a.window)
 		if k != "" {
 			first(k, fmt.Sprintf("%s[%s]: %s", a.name, a.kind, m))
+			continue
+		}
+		if refused {
+			s.classes["refused"] = true
+			if len(a.between) > 0 {
+				s.classes["overlapped-request-refused"] = true
+			}
 			continue
 		}
 		if set < a.lo {
@@ -1025,81 +1126,111 @@ func c13Run(e *c13Env, c c13Case) (res c13Result) {
 		return
 	}
 
-	// final probe: which set is installed now?
-	type pr struct {
-		resp *pb.RegistrationResponse
-		err  error
-		pan  string
-		gid  int64
-	}
-	ch := make(chan pr, 2)
-	go func() {
-		var r pr
-		ch <- pr{gid: c13Gid()}
-		defer func() {
-			if x := recover(); x != nil {
-				r.pan = fmt.Sprint(x)
-			}
-			ch <- r
+	// ---- after the schedule: a request, one more (valid) reload, another request. Everything the
+	// schedule left behind (a lock that was never released, a selector that was not installed) shows here.
+	// after runs fn in its own goroutine. stalled means: fn waits for a registrar lock although every
+	// actor has returned, still so after the final wait.
+	after := func(what string, fn func()) (pan string, ok bool) {
+		type msg struct {
+			gid int64
+			pan string
+		}
+		ch := make(chan msg, 2)
+		go func() {
+			ch <- msg{gid: c13Gid()}
+			var m msg
+			defer func() {
+				if x := recover(); x != nil {
+					m.pan = fmt.Sprint(x)
+				}
+				ch <- m
+			}()
+			fn()
 		}()
-		r.resp, r.err = s.p.RegisterBidirectional(c13Request(c13Secret("probe", 0, 0), "dual"), pb.RegistrationSource_BidirectionalAPI, net.ParseIP("198.51.100.9").To4())
-	}()
-	gidMsg := <-ch
-	var r pr
-	deadline := time.Now().Add(c13SettleTimeout)
-	wait := 200 * time.Microsecond
-	for got := false; !got; {
-		select {
-		case r = <-ch:
-			got = true
-			continue
-		case <-time.After(wait):
-		}
-		if wait < 5*time.Millisecond {
-			wait *= 2
-		}
-		if g := c13Dump()[gidMsg.gid]; g.blocked() {
-			// every actor has finished, so nobody is left who could release that lock; confirm anyway
-			w := c13StallWaitNext
-			if c13StallsSeen.Load() == 0 {
-				w = c13StallWaitLong
-			}
+		gid := (<-ch).gid
+		deadline := time.Now().Add(c13SettleTimeout)
+		wait := 200 * time.Microsecond
+		for {
 			select {
-			case r = <-ch:
-				got = true
-				continue
-			case <-time.After(w):
+			case m := <-ch:
+				return m.pan, true
+			case <-time.After(wait):
 			}
-			if g = c13Dump()[gidMsg.gid]; g.blocked() {
-				c13StallsSeen.Add(1)
-				res.Stalled = true
-				first("stall", fmt.Sprintf("registrar blocked for good: every request and reload of the schedule has returned, yet a further request still waits after %v in %s", w, g.where()))
-				return
+			if wait < 5*time.Millisecond {
+				wait *= 2
 			}
-		}
-		if time.Now().After(deadline) {
-			res.Harness = "final probe request did not return: " + c13Dump()[gidMsg.gid].text
-			return
+			if g := c13Dump()[gid]; g.blocked() {
+				// every actor has returned, so nobody is left who could release that lock; confirm anyway
+				w := c13StallWaitNext
+				if c13StallsSeen.Load() == 0 {
+					w = c13StallWaitLong
+				}
+				select {
+				case m := <-ch:
+					return m.pan, true
+				case <-time.After(w):
+				}
+				if g = c13Dump()[gid]; g.blocked() {
+					c13StallsSeen.Add(1)
+					res.Stalled = true
+					first("stall", fmt.Sprintf("registrar blocked for good: every request and reload of the schedule has returned, yet %s still waits after %v in %s", what, w, g.where()))
+					return "", false
+				}
+			}
+			if time.Now().After(deadline) {
+				res.Harness = what + " after the schedule did not return: " + c13Dump()[gid].text
+				return "", false
+			}
 		}
 	}
-	if r.pan != "" {
-		first("request-panic", "request after the schedule panicked: "+r.pan)
+	probe := func(tag string, want int, what string) bool {
+		var resp *pb.RegistrationResponse
+		var err error
+		pan, ok := after("a further request", func() {
+			resp, err = s.p.RegisterBidirectional(c13Request(c13Secret("probe-"+tag, 0, 0), "dual"), pb.RegistrationSource_BidirectionalAPI, net.ParseIP("198.51.100.9").To4())
+		})
+		if !ok {
+			return false
+		}
+		if pan != "" {
+			first("request-panic", "request after "+tag+" panicked: "+pan)
+			return false
+		}
+		set, _, k, m := e.c13Judge("dual", resp, err, nil)
+		if k != "" {
+			first(k, "request after "+tag+": "+m)
+			return false
+		}
+		if set != want {
+			first("final-set", fmt.Sprintf("after %s the registrar answers from set %d, expected set %d (%s)", tag, set, want, what))
+			return false
+		}
+		return true
+	}
+	what := "a successful reload is not in effect"
+	if len(s.reloads) > 0 {
+		if last := s.reloads[len(s.reloads)-1]; last.kind != "new" {
+			what = "a failed reload changed the installed set, or an earlier successful reload is not in effect"
+		}
+	}
+	if !probe("the schedule", s.cur, what) {
 		return
 	}
-	set, k, m := e.c13Judge("dual", r.resp, r.err)
-	if k != "" {
-		first(k, "request after the schedule: "+m)
+	os.Setenv("PHANTOM_SUBNET_LOCATION", e.files[s.nextNew])
+	var rerr error
+	pan, ok := after("a further reload", func() { rerr = s.p.ReloadSubnets() })
+	if !ok {
 		return
 	}
-	if set != s.cur {
-		what := "a successful reload is not in effect"
-		if len(s.reloads) > 0 {
-			if last := s.reloads[len(s.reloads)-1]; last.kind != "new" {
-				what = "a failed reload changed the installed set, or an earlier successful reload is not in effect"
-			}
-		}
-		first("final-set", fmt.Sprintf("after the schedule the registrar answers from set %d, expected set %d (%s)", set, s.cur, what))
+	if pan != "" {
+		first("reload-panic", "reload after the schedule panicked: "+pan)
+		return
 	}
+	if rerr != nil {
+		first("reload-error", fmt.Sprintf("reload of a valid subnet file after the schedule failed: %v", rerr))
+		return
+	}
+	probe("the schedule and one more reload", s.nextNew, "the last reload is not in effect")
 	return
 }
 
@@ -1201,8 +1332,6 @@ func c13Tuples(kinds []string, m int) [][]string {
 	return out
 }
 
-var c13ReqKinds = []string{"dual", "v4", "v6"}
-
 func c13Replay(t *testing.T, rec *vh.Rec, e *c13Env) bool {
 	p := vh.ReplayFile()
 	if p == "" {
@@ -1226,10 +1355,10 @@ type c13Scen struct {
 	sym           bool
 }
 
-func c13Scens(kmin, kmax, m int, reloadKinds []string, sym bool) []c13Scen {
+func c13Scens(reqKinds []string, kmin, kmax, m int, reloadKinds []string, sym bool) []c13Scen {
 	var out []c13Scen
 	for k := kmin; k <= kmax; k++ {
-		for _, rq := range c13Multisets(c13ReqKinds, k) {
+		for _, rq := range c13Multisets(reqKinds, k) {
 			for _, rl := range c13Tuples(reloadKinds, m) {
 				out = append(out, c13Scen{rq, rl, sym})
 			}
@@ -1247,6 +1376,16 @@ func c13Scens(kmin, kmax, m int, reloadKinds []string, sym bool) []c13Scen {
 func c13RunScens(t *testing.T, rec *vh.Rec, e *c13Env, scens []c13Scen, reduce bool, depth func(k int) int, budget time.Duration, exhaustive bool) {
 	total, items, skipped := 0, 0, 0
 	start := time.Now()
+	seen := map[string]bool{}
+	var uniq []c13Scen
+	for _, sc := range scens {
+		k := fmt.Sprint(sc.reqs, sc.reloads, sc.sym)
+		if !seen[k] {
+			seen[k] = true
+			uniq = append(uniq, sc)
+		}
+	}
+	scens = uniq
 	for si, sc := range scens {
 		base := c13Case{Reqs: sc.reqs, Reloads: sc.reloads, Reduce: reduce, Sym: sc.sym}
 		w := len(sc.reqs) + 1
@@ -1291,18 +1430,21 @@ func c13RunScens(t *testing.T, rec *vh.Rec, e *c13Env, scens []c13Scen, reduce b
 // TestVerif_C13_exhaustive: literally every interleaving of the moves {start request, resume parked
 // request, start next reload} for small scenarios.
 func TestVerif_C13_exhaustive(t *testing.T) {
-	rec := vh.NewRec("C13", "exhaustive", "all interleavings of harness-owned moves (start a request; resume a request parked at entry/exit of an address selection; start the next reload) for every multiset of k requests over {dual,v4,v6} and every sequence of m reloads over {valid file with disjoint subnets, unreadable file, invalid file}; quick: k<=2,m=1; thorough: k<=2,m<=2, and k=3,m=1 over {valid,unreadable} (three dual-stack requests: valid only) where requests of the same kind are started in index order (they are interchangeable, so this loses nothing); non-trivial = a reload starts while a dual-stack request is parked between its two selections; distinct by (scenario, schedule)")
+	rec := vh.NewRec("C13", "exhaustive", "all interleavings of harness-owned moves (start a request; resume a request parked at entry/exit of an address selection; start the next reload) for every multiset of k requests over {dual,v4,v6} plus, with {valid,unreadable} reloads, over the kinds whose selection fails {badgen: unknown generation; v6x: IPv6 only from a generation with IPv4 subnets only; dualx: dual-stack on that generation; dualalt: dual-stack on a generation that lacks IPv6 in every second set} and every sequence of m reloads over {valid file with disjoint subnets, unreadable file, invalid file}; quick: k<=2,m=1; thorough: k<=2,m<=2, and k=3,m=1 over {valid,unreadable} (three dual-stack requests: valid only) where requests of the same kind are started in index order (they are interchangeable, so this loses nothing); non-trivial = a reload starts while a dual-stack request is parked between its two selections; distinct by (scenario, schedule)")
 	defer rec.Flush()
 	e := c13NewEnv(t)
 	if c13Replay(t, rec, e) {
 		return
 	}
-	rec.Require("reload-between-selections", "reload-inside-selection", "reload-ok", "reload-failed", "dual", "v4", "v6")
+	rec.Require("reload-between-selections", "reload-inside-selection", "reload-ok", "reload-failed", "dual", "v4", "v6", "badgen", "v6x", "dualx", "dualalt", "refused", "overlapped-request-refused")
 	all := []string{"new", "missing", "garbage"}
-	scens := c13Scens(1, 2, 1, all, false)
+	two := []string{"new", "missing"}
+	scens := c13Scens(c13ReqKinds, 1, 2, 1, all, false)
+	scens = append(scens, c13Scens(c13AllReqKinds, 1, 2, 1, two, false)...)
 	if vh.Thorough() {
-		scens = append(scens, c13Scens(1, 2, 2, all, false)...)
-		for _, sc := range c13Scens(3, 3, 1, []string{"new", "missing"}, true) {
+		scens = append(scens, c13Scens(c13ReqKinds, 1, 2, 2, all, false)...)
+		scens = append(scens, c13Scens(c13AllReqKinds, 1, 2, 2, two, false)...)
+		for _, sc := range c13Scens(c13ReqKinds, 3, 3, 1, two, true) {
 			// three dual-stack requests: only with the reload that takes the lock (2 million schedules)
 			if sc.reqs[2] == "dual" && sc.reloads[0] != "new" {
 				continue
@@ -1322,24 +1464,28 @@ func TestVerif_C13_exhaustive(t *testing.T) {
 // reload events (requests only read-lock; their moves commute): every vector of request positions at
 // every reload start. All orders are covered by the exhaustive sub-check for the small scenarios.
 func TestVerif_C13_reduced(t *testing.T) {
-	rec := vh.NewRec("C13", "reduced", "every vector of request positions (not started / inside 1st selection / between selections / inside 2nd / after / finished) at the start of every reload: within each segment between reload events (a reload starts / returns) requests move in index order (they only read-lock, so their moves commute; while a reload waits for the lock a new index-ordered run starts when only lower-numbered requests can still move); quick: k=3,m=1; k<=2,m=2; k=3 with >=2 dual-stack requests and two valid reloads; thorough: k<=3,m<=2 all reload kinds; k<=2,m=3; k=4,m=1; k=4 with two valid reloads; non-trivial and distinct as in the exhaustive sub-check. Not an enumeration of all interleavings.")
+	rec := vh.NewRec("C13", "reduced", "every vector of request positions (not started / inside 1st selection / between selections / inside 2nd / after / finished) at the start of every reload: within each segment between reload events (a reload starts / returns) requests move in index order (they only read-lock, so their moves commute; while a reload waits for the lock a new index-ordered run starts when only lower-numbered requests can still move); quick: k=3,m=1 and k<=2,m=2 over all seven request kinds (incl. the refused ones); k=3 with >=2 dual-stack requests and two valid reloads; thorough: k<=3,m<=2 all reload kinds; k<=2,m=3; k=4,m=1; k=4 with two valid reloads (refused kinds for k<=3); non-trivial and distinct as in the exhaustive sub-check. Not an enumeration of all interleavings.")
 	defer rec.Flush()
 	e := c13NewEnv(t)
 	if c13Replay(t, rec, e) {
 		return
 	}
-	rec.Require("reload-between-selections", "reload-ok", "reload-failed", "k=3", "m=2")
+	rec.Require("reload-between-selections", "reload-ok", "reload-failed", "k=3", "m=2", "badgen", "v6x", "dualx", "dualalt", "refused", "overlapped-request-refused")
 	all := []string{"new", "missing", "garbage"}
+	two := []string{"new", "missing"}
 	var scens []c13Scen
 	if vh.Thorough() {
-		scens = append(scens, c13Scens(3, 4, 1, all, false)...)
-		scens = append(scens, c13Scens(3, 3, 2, all, false)...)
-		scens = append(scens, c13Scens(1, 2, 3, []string{"new", "missing"}, false)...)
-		scens = append(scens, c13Scens(4, 4, 2, []string{"new"}, false)...)
+		scens = append(scens, c13Scens(c13ReqKinds, 3, 4, 1, all, false)...)
+		scens = append(scens, c13Scens(c13AllReqKinds, 3, 3, 1, all, false)...)
+		scens = append(scens, c13Scens(c13ReqKinds, 3, 3, 2, all, false)...)
+		scens = append(scens, c13Scens([]string{"dual", "dualalt", "badgen", "v6x"}, 3, 3, 2, []string{"new"}, false)...)
+		scens = append(scens, c13Scens(c13ReqKinds, 1, 2, 3, two, false)...)
+		scens = append(scens, c13Scens(c13AllReqKinds, 1, 2, 3, []string{"new"}, false)...)
+		scens = append(scens, c13Scens(c13ReqKinds, 4, 4, 2, []string{"new"}, false)...)
 	} else {
-		scens = append(scens, c13Scens(3, 3, 1, []string{"new", "missing"}, false)...)
-		scens = append(scens, c13Scens(1, 2, 2, []string{"new", "missing"}, false)...)
-		for _, sc := range c13Scens(3, 3, 2, []string{"new"}, false) {
+		scens = append(scens, c13Scens(c13AllReqKinds, 3, 3, 1, two, false)...)
+		scens = append(scens, c13Scens(c13AllReqKinds, 1, 2, 2, two, false)...)
+		for _, sc := range c13Scens(c13ReqKinds, 3, 3, 2, []string{"new"}, false) {
 			if sc.reqs[1] == "dual" { // multisets are sorted dual first: at least two dual-stack requests
 				scens = append(scens, sc)
 			}
@@ -1353,7 +1499,7 @@ func c13Gen(rt *rapid.T) c13Case {
 	m := rapid.IntRange(1, 4).Draw(rt, "m")
 	var c c13Case
 	for i := 0; i < k; i++ {
-		c.Reqs = append(c.Reqs, rapid.SampledFrom([]string{"dual", "dual", "dual", "v4", "v6"}).Draw(rt, "req"))
+		c.Reqs = append(c.Reqs, rapid.SampledFrom([]string{"dual", "dual", "dual", "v4", "v6", "dualalt", "dualalt", "dualx", "badgen", "v6x"}).Draw(rt, "req"))
 	}
 	for i := 0; i < m; i++ {
 		c.Reloads = append(c.Reloads, rapid.SampledFrom([]string{"new", "new", "new", "missing", "garbage"}).Draw(rt, "reload"))
@@ -1364,13 +1510,13 @@ func c13Gen(rt *rapid.T) c13Case {
 
 // TestVerif_C13_random: rapid-drawn scenarios and schedules beyond the enumerated sizes.
 func TestVerif_C13_random(t *testing.T) {
-	rec := vh.NewRec("C13", "random", "rapid-drawn scenarios (1-6 requests over {dual,v4,v6}, 1-4 sequential reloads over {valid,unreadable,invalid}) with a drawn list of scheduler picks (index into the enabled moves), completed first-enabled-first; non-trivial and distinct as in the exhaustive sub-check")
+	rec := vh.NewRec("C13", "random", "rapid-drawn scenarios (1-6 requests over {dual,v4,v6,dualalt,dualx,badgen,v6x}, 1-4 sequential reloads over {valid,unreadable,invalid}) with a drawn list of scheduler picks (index into the enabled moves), completed first-enabled-first; non-trivial and distinct as in the exhaustive sub-check")
 	defer rec.Flush()
 	e := c13NewEnv(t)
 	if c13Replay(t, rec, e) {
 		return
 	}
-	rec.Require("reload-between-selections", "reload-ok", "reload-failed", "dual")
+	rec.Require("reload-between-selections", "reload-ok", "reload-failed", "dual", "badgen", "v6x", "dualx", "dualalt", "refused")
 	rapid.Check(t, func(rt *rapid.T) {
 		c13Check(rt, rec, e, c13Gen(rt))
 	})
